@@ -18,6 +18,7 @@
  R7 gain profile: the last refinement step of _gain_profile is the secant step x + (G - g(x))/slope on both sides; the
                   flat-amplifier shortcut returns the effective gain.
  Rm memo          : every memoisation construct in the functions behind this property is keyed by everything it reads.
+ Rp presence      : optional numeric fields are tested with `is None` / membership, never by truthiness (0 is a value).
 """
 import ast
 from fractions import Fraction
@@ -542,5 +543,10 @@ from ..memo import rule_for as _memo_rule
 
 RULES_MEMO = ('Rm.memo', _memo_rule('C04', 'the gain, NF or ASE of another operating point would be applied'))
 
+
+from ..presence import rule_for as _presence_rule
+
+RULES_PRESENCE = ('Rp.presence', _presence_rule('C04', 'an amplifier setting of exactly 0 would be replaced by a default'))
+
 RULES = [('R8.dual-stage', r8_dual_stage), ('R1.ase', r1_ase), ('R2.order', r2_order), ('R3.clamp', r3_clamp), ('R4.nf', r4_nf), ('R5.exhaustive', r5_exhaustive),
-         ('R6.band', r6_band), ('R7.gain-profile', r7_gain_profile), RULES_MEMO]
+         ('R6.band', r6_band), ('R7.gain-profile', r7_gain_profile), RULES_MEMO, RULES_PRESENCE]
